@@ -7,7 +7,7 @@ GEN = []
 LEAN = ["Ymq.Props.C09"]
 AUDIT = "Ymq.Audit.C09"
 THEOREMS = ["Ymq.C09.reduce64_inv", "Ymq.C09.step_gcd", "Ymq.C09.gcd_internal_spec", "Ymq.C09.gcd_terminates", "Ymq.C09.big_gcd_spec",
-            "Ymq.C09.inv_mod_spec", "Ymq.C09.mulword_no_panic", "Ymq.C09.no_panic_partial"]
+            "Ymq.C09.inv_mod_spec", "Ymq.C09.mulword_no_panic", "Ymq.C09.no_panic_partial", "Ymq.C09.no_panic_ext_partial"]
 PROFILES = ["release", "chk"]
 TIMEOUT = 20.0
 W = 1 << 64
@@ -21,8 +21,9 @@ RULE = ("all width pairs from {0,1,2,31..33,63..65,100,127..129,192,256,300,448,
 MODELLED = ["arith_gcd::{reduce64, top64, mulword, dot_product} word-exact (u64/i64/digit arrays, every overflow, index and "
             "debug assertion as a panic site)",
             "arith_gcd::gcd_internal<N,EXT> for N in {4,8,16}, EXT on/off: loop with fuel, BInt<N> cofactor arithmetic with "
-            "explicit range checks, both fallback branches, the Lehmer step, the <64-bit exit through "
-            "num_integer::extended_gcd (modelled step by step on i64)",
+            "explicit range checks (the width K of the cofactors is a parameter of the model, the code is K = N), both "
+            "fallback branches, the Lehmer step, the <64-bit exit through num_integer::extended_gcd (modelled step by step "
+            "on i64)",
             "arith_gcd::{big_gcd, inv_mod}; ZmodN::{inv,gcd} as compositions (driver only)"]
 UNMODELLED = ["bnum whole-integer operators (/ % * + - << comparisons, bits, cast_from, Display/FromStr) are modelled as "
               "Nat/Int arithmetic with a range check where bnum panics on overflow",
@@ -30,8 +31,11 @@ UNMODELLED = ["bnum whole-integer operators (/ % * + - << comparisons, bits, cas
               "ZmodN::inv's two Montgomery multiplications are modelled as multiplication by R^2 mod n (C07 covers them)"]
 HYPOTHESES = []
 CLAIM = ("Lean theorems for all inputs about a word-exact model of arith_gcd.rs: reduce64 keeps its linear relations, "
-         "determinant +-1 and the 2^36 bound without any overflow; a unimodular step preserves the gcd; whenever "
-         "gcd_internal returns, d = gcd(n,p) and u*n + v*p = d; inv_mod returns a reduced inverse or the non-trivial gcd; "
+         "determinant +-1 and the 2^36 bound without any overflow (all u64 pairs); a unimodular step preserves the gcd; "
+         "whenever gcd_internal returns, d = gcd(n,p) and u*n + v*p = d; an explicit fuel bound (x*y shrinks by 3/4 per "
+         "iteration); big_gcd is total on all of BUint<N> and returns the gcd; inv_mod returns a reduced inverse or the "
+         "non-trivial gcd (all n, p incl. p = 1, n = 0); in the extended variant no panic site other than the BInt<N> "
+         "cofactor range checks is reachable (partial: the cofactor bound itself is validated by the runs only); "
          "the model is tied to the real code by exact (d,u,v) comparison in both build profiles and every implementation "
          "answer is judged by a Python big-integer oracle (math.gcd, Bezout identity, range of the inverse).")
 LEVEL_NOTE = ("Trusted: Lean kernel (+propext, Classical.choice, Quot.sound); correspondence of the hand-written model to "
@@ -281,11 +285,11 @@ def cases(tier, rng, extended=False):
         for rep in range(reps):
             for wa in widths:
                 for wb in widths:
-                    # quick: 3 shapes per width pair in rotation (every shape meets every width many times);
-                    # thorough: every shape for every width pair, several draws
-                    shapes = [SHAPES[(k + j * 4) % len(SHAPES)] for j in range(3)] if quick and not extended else SHAPES
+                    # quick: 4 shapes per width pair in rotation (every shape meets every width many times,
+                    # about 5800 operand pairs in total); thorough: every shape for every width pair, several draws
+                    shapes = [SHAPES[(k + j * 3) % len(SHAPES)] for j in range(4)] if quick and not extended else SHAPES
                     if quick and N == 4:
-                        shapes = shapes[:1]
+                        shapes = shapes[:2]
                     k += 1
                     for sh in shapes:
                         a, b = make_pair(rng, sh, wa, wb, MAXBITS[N])
